@@ -175,7 +175,7 @@ package testscript
 //@   loop 2: after forall K {at(ts.archive.Files,K)} :: lo(ts.archive.Files) <= K && K < hi(ts.archive.Files) && at(ts.archive.Files,K).Name == name ==> updOK(sid(at(ts.archive.Files,K).Data), sid(content))
 //@   allowpanic
 //@   modifies H_S_txtar_File, bytes, fsExists, fsData, fsSize, fsBytes, fsWrites
-//@   at call os.WriteFile#1: requires sameStr(name, ts.file)
+//@   at call os.WriteFile#1: requires sameStr(name, ts.file) && maplen(ts.scriptUpdates) > 0
 //@   at call txtar.Format#1: requires a == ts.archive
 //@   loop 1: invariant sameSlice(ts.archive.Files, old(ts.archive.Files))
 //@   loop 1: invariant forall K {at(ts.archive.Files,K)} :: lo(ts.archive.Files) <= K && K < hi(ts.archive.Files) ==> sameStr(at(ts.archive.Files,K).Name, old(at(ts.archive.Files,K)).Name) && (!mapkeys(ts.scriptUpdates)[at(ts.archive.Files,K).Name] ==> sameSlice(at(ts.archive.Files,K).Data, old(at(ts.archive.Files,K)).Data))
